@@ -1,6 +1,7 @@
 package main
 
 import (
+	"bytes"
 	"encoding/json"
 	"fmt"
 	"io/ioutil"
@@ -80,8 +81,12 @@ func (c *ctx) genCmdVal(k string, inRange bool) M {
 			} else {
 				out[f.name] = c.genU8()
 			}
-		case "int":
-			out[f.name] = c.rnd.Intn(2)
+		case "int": // an enumeration carried in one bit (DwellTime): 0 / 1, and - when not restricted to the range - any int
+			if inRange || c.rnd.Intn(2) == 0 {
+				out[f.name] = c.rnd.Intn(2)
+			} else {
+				out[f.name] = c.pick(-1, 2, 3, 255, 256, 257, -256)
+			}
 		case "i8":
 			if inRange {
 				out[f.name] = c.rnd.Intn(64) - 32
@@ -420,6 +425,19 @@ func drvMacCmd(c *ctx) error {
 			}
 		}
 	case "streams":
+		// FOpts sequences far beyond the 15-byte field: the encoder must refuse them, whatever their length is modulo 256
+		for _, n := range []int{16, 17, 255, 256, 257, 260, 271, 272, 512, 520} {
+			dir := []string{"down", "up"}[n%2]
+			cid := map[string]int{"up": 2, "down": 6}[dir] // LinkCheckReq / DevStatusReq: one byte each
+			items := make([]M, n)
+			for k := range items {
+				items[k] = M{"t": "cmd", "cid": cid, "p": []interface{}{}}
+			}
+			ev := streamEvent(dir, "fopts", items)
+			ev["cmds"] = []interface{}{} // not repeated in the event: `n` commands of one byte
+			ev["overlong"] = n
+			c.emit(ev)
+		}
 		for i := 0; i < c.n; i++ {
 			dir := []string{"down", "up"}[c.rnd.Intn(2)]
 			if c.rnd.Intn(2) == 0 {
@@ -608,7 +626,7 @@ func drvRegistry(c *ctx) error {
 					if c.rnd.Intn(3) > 0 {
 						cid = 128 + c.rnd.Intn(128)
 					}
-					h = append(h, M{"dir": []string{"down", "up"}[c.rnd.Intn(2)], "cid": cid, "size": c.rnd.Intn(6)})
+					h = append(h, M{"dir": []string{"down", "up"}[c.rnd.Intn(2)], "cid": cid, "size": c.rnd.Intn(7) - 1})
 				}
 				hists = append(hists, M{"hist": h})
 			}
@@ -631,6 +649,18 @@ func drvRegistry(c *ctx) error {
 			of := filepath.Join(dir, "out.ndjson")
 			cmd := exec.Command(self, "record", "registry", "--mode", "child", "--cases", cf, "--out", of, "--seed", fmt.Sprint(c.seed+int64(i)))
 			if out, err := cmd.CombinedOutput(); err != nil {
+				if ee, ok := err.(*exec.ExitError); ok && ee.ExitCode() == 3 && bytes.Contains(out, []byte("HANG-ABORT")) {
+					// the child's watchdog recorded a hang: its partial trace (ending with the hang event) becomes the end of this
+					// trace, and this driver ends the same way
+					if ob, rerr := ioutil.ReadFile(of); rerr == nil {
+						wd.mu.Lock()
+						c.w.Write(ob)
+						c.w.Flush()
+						c.f.Close()
+						fmt.Fprintln(os.Stderr, "HANG-ABORT: (child process)", strings.TrimSpace(string(out)))
+						os.Exit(3)
+					}
+				}
 				return fmt.Errorf("registry child failed: %v: %s", err, out)
 			}
 			ob, err := ioutil.ReadFile(of)
